@@ -386,3 +386,85 @@ def post_copy_separate(r):
 
 def post_copy_result_same_value(r):
     return same_value(r.result, r.old_self) and separate(r.result, r.self) and owns_lists(r.result)
+
+
+# ------------------------------------------------------------------------------------------ N2: find_settings
+def norm_bound(v, default, n):
+    if v is None:
+        return default
+    if v < 0:
+        v = v + n
+        if v < 0:
+            v = 0
+        return v
+    if v > n:
+        return n
+    return v
+
+
+def find_range(r):
+    n = len(r.old_self._s)
+    return (norm_bound(r.start, 0, n), norm_bound(r.end, n, n))
+
+
+def has_all(v, p, settings):
+    """position p reports every one of the given settings (compared by value)"""
+    ts = texts(view(v, p))
+    for s in settings:
+        if str(s) not in ts:
+            return False
+    return True
+
+
+def post_find_degenerate(r):
+    a, b = find_range(r)
+    if b < a:
+        return r.result[0] is None and r.result[1] is None
+    if len(r.settings) == 0:
+        return r.result[0] == a and r.result[1] == b
+    return True
+
+
+def find_k_range(r):
+    a, b = find_range(r)
+    if b < a or len(r.settings) == 0:
+        return (0, 0)
+    return (a, b + 1)
+
+
+def post_find_positions(r):
+    """for every position p of the inclusive normalised range: the answer is consistent with whether p has all the
+    given settings"""
+    a, b = find_range(r)
+    fs = r.result[0]
+    fe = r.result[1]
+    p = r.k
+    h = has_all(r.old_self, p, r.settings)
+    if fs is None:
+        return fe is None and not h
+    if r.reverse:
+        return True
+    if p < fs:
+        return not h
+    if fe is None:
+        return h
+    if p < fe:
+        return h
+    return True
+
+
+def post_find_start_end(r):
+    a, b = find_range(r)
+    if b < a or len(r.settings) == 0:
+        return True
+    fs = r.result[0]
+    fe = r.result[1]
+    if fs is None:
+        return fe is None
+    if fs < a or fs > b:
+        return False
+    if not has_all(r.old_self, fs, r.settings):
+        return False
+    if fe is None:
+        return True
+    return fs < fe and fe <= b and not has_all(r.old_self, fe, r.settings)
